@@ -186,7 +186,7 @@ func mergeSweep(c *explore.Ctx, k, K, maxDocs int, cfgs []mergeCfg, check func(s
 		cfg := cfg
 		scope := fmt.Sprintf("MERGE(k=%d,K=%d,d=%d)/%s", k, K, maxDocs, cfg.Name)
 		gen.MergeLists(opts, k, func(idx int64, specs []gen.SegSpec) bool {
-			if !c.MineIdx(scope, idx) {
+			if !c.MineIdx(scope, idx) && !c.ReplayParent(scope, idx) {
 				return true
 			}
 			c.Eval()
